@@ -33,4 +33,11 @@ def normEmpty (s : String) : String := if s == "nil" then "-" else s
 def checkRoundTripP (orig decoded : String) : Bool :=
   decoded == "ok " ++ orig || (decoded.startsWith "ok " && normEmpty (decoded.drop 3).toString == normEmpty orig)
 
+/-- clause (1) over a *history* of calls: the codecs are functions of their argument — an encoding handed out by an
+    earlier call still decodes to the value it was made from after any number of later encode / decode calls (the
+    result does not alias state that later calls reuse), and a decoded value is unaffected by later calls and by the
+    caller overwriting its input buffer. `final` is the rendering of the retained result at the end of the history,
+    `fresh` the rendering of the same operation carried out on its own. -/
+def checkHistoryStepP (fresh final : String) : Bool := fresh == final
+
 end ZoektModel.C26
